@@ -98,6 +98,20 @@ def chk(case, acc, seed):
         acc.violation(f'{via}:empty-segment', case, 'a segment became empty')
     if tuple(q.shape) != want_shape:
         acc.violation(f'{via}:plane-shape', case, f'{q.shape}')
+    # the returned plane owns its arrays: working on it in place must not reach the original
+    for nm in ('amplitude', 'opd', 'mask'):
+        a, b = np.asarray(getattr(q, nm)), np.asarray(getattr(p, nm))
+        if a.ndim >= 2 and np.shares_memory(a, b):
+            acc.violation(f'{via}:result-aliases-original:{nm}', case, f'the returned plane shares its {nm} array with the original')
+    try:
+        q2 = q.copy() if False else q
+        if np.asarray(q2.opd).ndim == 2:
+            q2.fit_tilt(inplace=True)
+            if pdig(p) != d0:
+                acc.violation(f'{via}:original-modified-through-result', case, 'in-place tilt fitting of the returned plane changed the original plane')
+            q = p.rescale(s) if via == 'rescale' else p.resample(DX / s)      # a fresh result for the checks below
+    except Exception as e:
+        acc.violation(f'{via}:fit-on-result-raises:{type(e).__name__}', case, repr(e))
     if s == 1:
         if rm.maxerr(q.amplitude, p.amplitude) > 1e-12 or rm.maxerr(q.opd, p.opd) > 1e-12 * WL or rm.maxerr(np.asarray(q.mask, float), np.asarray(p.mask, float)) > 0:
             acc.violation(f'{via}:identity', case, f's = 1 is not the identity (amp {rm.maxerr(q.amplitude, p.amplitude):.2e})')
@@ -160,7 +174,23 @@ def chk_refuse(case, acc, seed):
     acc.case(case, outcome='refuse')
 
 
-DISPATCH = {'resample': chk, 'refuse': chk_refuse}
+def chk_history(case, acc, seed):
+    """rescaling plane B gives the same plane whether or not another plane A (other size, same scale) was rescaled before"""
+    sa, sb, s, seg = tuple(case['a']), tuple(case['b']), case['scale'], case['seg']
+    engine.reset_library_state()
+    cold = plane(sb, seg, seed).rescale(s)
+    engine.reset_library_state()
+    plane(sa, seg, seed).rescale(s)
+    warm = plane(sb, seg, seed).rescale(s)
+    if pdig(cold) != pdig(warm):
+        acc.violation('rescale:history-dependent', case,
+                      f'rescale({s}) of a {sb} plane differs after rescaling a {sa} plane (amplitude max diff '
+                      f'{rm.maxerr(cold.amplitude, warm.amplitude):.3e})')
+    acc.cls('history')
+    acc.case(case, outcome='history')
+
+
+DISPATCH = {'resample': chk, 'refuse': chk_refuse, 'history': chk_history}
 
 
 def t_shape(arg, acc):
@@ -171,6 +201,11 @@ def t_shape(arg, acc):
                 chk({'kind': 'resample', 'shape': arg['shape'], 'seg': seg, 'scale': s, 'via': via}, acc, arg['seed'])
                 chk({'kind': 'resample', 'shape': arg['shape'], 'seg': seg, 'scale': s, 'via': via, 'used_first': True}, acc, arg['seed'])
     chk_refuse({'kind': 'refuse'}, acc, arg['seed'])
+    sh = tuple(arg['shape'])
+    for other in ((sh[0] + 1, sh[1] + 1), (sh[0] - 1, sh[1] - 1), (sh[1], sh[0]), (sh[0] + 1, sh[1])):
+        for s in (0.5, 0.75, 1.5, 2):
+            for seg in ('mono', 'seg2'):
+                chk_history({'kind': 'history', 'a': other, 'b': sh, 'scale': s, 'seg': seg}, acc, arg['seed'])
 
 
 def run(tier, seed, acc, procs=None):
@@ -186,7 +221,7 @@ def run(tier, seed, acc, procs=None):
         'bounds': {'shapes': shapes(tier), 'scales': SCALES},
         'assumptions': ['"interpolation accuracy" is a bounded numerical statement: tolerances are 10x above the spline noise measured on '
                         'this alphabet and far below the factor s^2 (power) or s (pixel scale) that a convention error produces'],
-        'require': {'rescale:down': 8, 'rescale:up': 30, 'resample:identity': 4, 'seg:seg2': 40, 'refusals': 1},
+        'require': {'rescale:down': 8, 'rescale:up': 30, 'resample:identity': 4, 'seg:seg2': 40, 'refusals': 1, 'history': 30},
     }
 
 
